@@ -4,9 +4,10 @@
 From Coq Require Import Reals QArith List.
 From Coquelicot Require Import Coquelicot.
 From OV.base Require Import Num.
-From OV.gen Require Import Gen_ScalarRootFind Gen_Hardening Gen_TensorMath Gen_J2Flow Gen_J2Elastic.
-From OV.model Require Import M_C17 M_C09 M_C09T.
-From OV.proofs Require Import L_C17 L_C09 L_C09r L_C09T.
+From OV.gen Require Import Gen_ScalarRootFind Gen_Hardening Gen_TensorMath Gen_J2Flow Gen_J2Elastic Gen_J2Finite.
+From OV.gen Require Import Gen_HyperViscoelastic Gen_MultiBranchHyperViscoelastic Gen_ViscoState.
+From OV.model Require Import M_C17 M_C09 M_C09T M_C08 M_C11 M_C11s M_C09F.
+From OV.proofs Require Import L_C17 L_C09 L_C09r L_C09T L_C08 L_C11a L_C11 L_C11s L_C11t L_C11e L_C11u L_C09F L_C09G L_C09N L_C09L.
 Import ListNotations.
 Local Open Scope R_scope.
 
@@ -195,6 +196,112 @@ Theorem C09_seth_hill_commit_invariance : forall pw (l : @law R) mu kappa dt dt'
   @energy_add R NumR (strain_seth_hill pw) l NoRate mu kappa dt' H st' = @energy_add R NumR (strain_seth_hill pw) l NoRate mu kappa dt H st.
 Proof. exact commit_invariance_seth_hill. Qed.
 
+(* ---------- tensor level, FINITE-DEFORMATION kinematics ('large deformations', the default; model/M_C09F.v: regenerated logarithmic trial
+   strain, state_increment of M_C09T, and the regenerated tail of compute_state_new_finite_deformations
+   FpNew = TensorMath.exp_symm(stateInc[PLASTIC_DISTORTION]) @ FpOld).  log_sqrt_symm / exp_symm are the spectral functions
+   V diag(f(lam)) V^T of model/M_C11s.v over eigen-solvers eighL / eighE; `solver_ok eigh` = the solver returns an orthogonal V and the
+   eigenvalues with V diag(lam) V^T = A at every SYMMETRIC A (L_C11u; such a solver exists: eigh_sym, the spectral theorem of L_C11e) ---------- *)
+(* what a step returns: the scalar update at the trial Mises stress of the logarithmic trial strain, multiplicative update of Fp *)
+Theorem C09_finite_step : forall (lss expm : @fn9 R) (l : @law R) (r : @rate R) mu dt H (st st' : @tstate R),
+  @state_new_fin R NumR lss expm l r mu dt H st = Some st' ->
+  exists d, @delta_eqps R NumR l r mu (trial_mises mu (strain_log lss H st)) (fst st) dt = Some d /\
+            st' = (fst st + d, mul9 (app9 expm (smul9 d (flowdir (strain_log lss H st)))) (snd st)).
+Proof. exact state_new_fin_spec. Qed.
+(* ISOCHORIC along ANY history of (displacement gradient, dt), all three laws, with or without rate sensitivity, from ANY state: eqps never
+   decreases and det Fp keeps its value.  No premise on log_sqrt_symm's solver; exp_symm's solver must meet its contract on symmetric matrices *)
+Theorem C09_finite_history_isochoric : forall (eighL eighE : M -> E3) (l : @law R) (r : @rate R) mu,
+  solver_ok eighE -> 0 < mu -> rate_admissible r ->
+  forall (steps : list (@m9 R * R)) (st : @tstate R) sts, law_admissible l (fst st) -> List.Forall (fun p => 0 < snd p) steps ->
+  @history_fin R NumR (fin_lss eighL) (fin_expm eighE) l r mu steps st = Some sts ->
+  forall k, (k < length sts)%nat ->
+    fst (nth k (st :: sts) st) <= fst (nth (S k) (st :: sts) st) /\ det9 (snd (nth (S k) (st :: sts) st)) = det9 (snd st).
+Proof. exact fin_history_isochoric_spectral. Qed.
+(* the same for ANY pair of tensor functions with symmetric log_sqrt_symm values and Jacobi's formula on symmetric arguments *)
+Theorem C09_finite_history_isochoric_general : forall (lss expm : @fn9 R) (l : @law R) (r : @rate R) mu,
+  (forall C, sym9 (app9 lss C)) -> jacobi_on_symmetric expm -> 0 < mu -> rate_admissible r ->
+  forall (steps : list (@m9 R * R)) (st : @tstate R) sts, law_admissible l (fst st) -> List.Forall (fun p => 0 < snd p) steps ->
+  @history_fin R NumR lss expm l r mu steps st = Some sts ->
+  forall k, (k < length sts)%nat ->
+    fst (nth k (st :: sts) st) <= fst (nth (S k) (st :: sts) st) /\ det9 (snd (nth (S k) (st :: sts) st)) = det9 (snd st).
+Proof. exact fin_history_invariants. Qed.
+(* with the eigen-solver constructed in L_C11e.v NOTHING is assumed about the matrix functions: from the virgin state det Fp = 1 throughout *)
+Theorem C09_finite_history_isochoric_unconditional : forall (l : @law R) (r : @rate R) mu, 0 < mu -> rate_admissible r ->
+  forall (steps : list (@m9 R * R)) sts, law_admissible l 0 -> List.Forall (fun p => 0 < snd p) steps ->
+  @history_fin R NumR (fin_lss eigh_sym) (fin_expm eigh_sym) l r mu steps virgin_fin = Some sts ->
+  forall k, (k < length sts)%nat ->
+    fst (nth k (virgin_fin :: sts) virgin_fin) <= fst (nth (S k) (virgin_fin :: sts) virgin_fin) /\
+    det9 (snd (nth (S k) (virgin_fin :: sts) virgin_fin)) = 1.
+Proof. exact fin_history_isochoric_unconditional. Qed.
+(* the coaxial update: recomputed from the committed state (eqps + d, exp_symm(d N) Fp) the logarithmic trial strain is Ee_trial - d N *)
+Theorem C09_finite_coaxial_update : forall (eighL eighE : M -> E3), solver_ok eighL -> solver_ok eighE ->
+  forall (H : @m9 R) (eo eo' d : R) (Fp : @m9 R),
+  let lss := @fin_lss R NumR eighL in let expm := @fin_expm R NumR eighE in
+  mdet (defgrad (of9 H)) <> 0 -> mdet (of9 Fp) <> 0 -> nondegenerate (strain_log lss H (eo, Fp)) ->
+  strain_log lss H (eo', mul9 (app9 expm (smul9 d (flowdir (strain_log lss H (eo, Fp))))) Fp)
+  = axpy9 d (flowdir (strain_log lss H (eo, Fp))) (strain_log lss H (eo, Fp)).
+Proof. exact strain_log_commit. Qed.
+(* committing the state (rate-independent laws; deviators above the code's flow-direction threshold; F and Fp invertible): at the same
+   displacement gradient the committed state gives (i) the elastic strain the update produced, (ii) a stress on or inside the yield surface to
+   the solver tolerance in tensor terms, (iii) no further change of eqps AND of Fp (tensor-level idempotence; exp_symm(0) = I for every
+   decomposition), (iv) the same energy density, (v) the same det Fp *)
+Theorem C09_finite_commit_invariance : forall (eighL eighE : M -> E3), solver_ok eighL -> solver_ok eighE ->
+  forall (l : @law R) mu kappa dt dt' H (st st' : @tstate R),
+  let lss := @fin_lss R NumR eighL in let expm := @fin_expm R NumR eighE in
+  0 < mu -> law_admissible l 0 -> 0 < law_Y0 l -> 0 <= fst st ->
+  det9 (add9 H id9) <> 0 -> det9 (snd st) <> 0 ->
+  nondegenerate (strain_log lss H st) -> nondegenerate (strain_log lss H st') ->
+  @state_new_fin R NumR lss expm l NoRate mu dt H st = Some st' ->
+  strain_log lss H st' = sub9 (strain_log lss H st) (smul9 (fst st' - fst st) (flowdir (strain_log lss H st))) /\
+  trial_mises mu (strain_log lss H st') - @h_flow R NumR l (fst st') <= @tolY R NumR l /\
+  @state_new_fin R NumR lss expm l NoRate mu dt' H st' = Some st' /\
+  @energy_fin R NumR lss l NoRate mu kappa dt' H st' = @energy_fin R NumR lss l NoRate mu kappa dt H st /\
+  det9 (snd st') = det9 (snd st).
+Proof. exact commit_invariance_fin. Qed.
+Theorem C09_finite_commit_invariance_unconditional : forall (l : @law R) mu kappa dt dt' H (st st' : @tstate R),
+  let lss := @fin_lss R NumR eigh_sym in let expm := @fin_expm R NumR eigh_sym in
+  0 < mu -> law_admissible l 0 -> 0 < law_Y0 l -> 0 <= fst st ->
+  det9 (add9 H id9) <> 0 -> det9 (snd st) <> 0 ->
+  nondegenerate (strain_log lss H st) -> nondegenerate (strain_log lss H st') ->
+  @state_new_fin R NumR lss expm l NoRate mu dt H st = Some st' ->
+  strain_log lss H st' = sub9 (strain_log lss H st) (smul9 (fst st' - fst st) (flowdir (strain_log lss H st))) /\
+  trial_mises mu (strain_log lss H st') - @h_flow R NumR l (fst st') <= @tolY R NumR l /\
+  @state_new_fin R NumR lss expm l NoRate mu dt' H st' = Some st' /\
+  @energy_fin R NumR lss l NoRate mu kappa dt' H st' = @energy_fin R NumR lss l NoRate mu kappa dt H st /\
+  det9 (snd st') = det9 (snd st).
+Proof. exact commit_invariance_fin_unconditional. Qed.
+
+(* ---------- "the update never returns NaN": composition with the C17 result contract.  root_call = the find_root call of update_state
+   (residual, slope, guess = bracket midpoint, bracket [eqps_old, elastic-predictor bound], 50 iterations, x_tol = 0, r_tol = tol) ---------- *)
+(* for ANY flow stress that does not drop over the bracket the ONLY NaN exit is the iteration cap of the root finder (not "not bracketed",
+   not 0/0, not fuel), and then the hardening is not flat over the bracket *)
+Theorem C09_nan_only_by_iteration_cap : forall (Yf dYf : R -> R) (mu tol : R), 0 < mu -> 0 <= tol -> forall s eo,
+  (tol < s - Yf eo -> Yf eo <= Yf (ubR Yf mu s eo)) ->
+  @delta_eqps_gen R NumR Yf dYf mu tol s eo = None ->
+  tol < s - Yf eo /\ tol < Yf (ubR Yf mu s eo) - Yf eo /\
+  exists it F dx, root_call Yf dYf mu tol s eo = Res None false it F dx IterCap /\ 50 <= it.
+Proof. exact nan_only_by_iteration_cap. Qed.
+Theorem C09_update_defined_unless_cap : forall (Yf dYf : R -> R) (mu tol : R), 0 < mu -> 0 <= tol -> forall s eo,
+  (tol < s - Yf eo -> Yf eo <= Yf (ubR Yf mu s eo)) ->
+  (forall it F dx, root_call Yf dYf mu tol s eo <> Res None false it F dx IterCap) ->
+  exists d, @delta_eqps_gen R NumR Yf dYf mu tol s eo = Some d.
+Proof. exact update_defined_unless_cap. Qed.
+Theorem C09_nan_only_by_iteration_cap_laws : forall (l : @law R) mu s eo dt, 0 < mu -> law_admissible l eo ->
+  @delta_eqps R NumR l NoRate mu s eo dt = None ->
+  exists it F dx,
+    root_call (fun e => @h_flow R NumR l e + @k_flow R NumR NoRate e eo dt) (fun e => @h_slope R NumR l e + @k_slope R NumR NoRate e eo dt) mu (@tolY R NumR l) s eo
+    = Res None false it F dx IterCap /\ 50 <= it.
+Proof. exact nan_only_by_iteration_cap_laws. Qed.
+(* flat hardening over the bracket (perfect plasticity, saturated Voce): a number, namely the elastic-predictor bound *)
+Theorem C09_flat_hardening_defined : forall (Yf dYf : R -> R) (mu tol : R), 0 < mu -> forall s eo,
+  tol < s - Yf eo -> Rabs (Yf (ubR Yf mu s eo) - Yf eo) <= tol ->
+  @delta_eqps_gen R NumR Yf dYf mu tol s eo = Some ((s - Yf eo) / (3 * mu)).
+Proof. exact flat_hardening_defined. Qed.
+(* LINEAR hardening (H >= 0, perfect plasticity included): the update ALWAYS returns a number -- the residual is affine, the first Newton
+   iterate from the bracket midpoint is the exact root, is in range and passes the decrease test, the regenerated loop body ends converged *)
+Theorem C09_linear_hardening_never_nan : forall Y0 H mu s eo dt, 0 < mu -> 0 <= Y0 -> 0 <= H ->
+  exists d, @delta_eqps R NumR (Linear Y0 H) NoRate mu s eo dt = Some d.
+Proof. exact linear_hardening_never_nan. Qed.
+
 (* NOT PROVED: (a) "the update never returns NaN" -- false of the faithful model: the C17 root finder can hit its iteration cap
    (C17_cap_refuted, finding F7; inside the J2 update: F13); every theorem above is conditional on `= Some d`.  Flat hardening
    (perfect plasticity, saturated Voce) is NOT excluded: there the residual at the upper bracket end is within the tolerance and
@@ -246,3 +353,7 @@ Print Assumptions C09_update_rate_sensitive_laws.
 Print Assumptions C09_variational_rate_sensitive_laws.
 Print Assumptions C09_small_history_invariants.
 Print Assumptions C09_small_commit_invariance.
+Print Assumptions C09_finite_history_isochoric_unconditional.
+Print Assumptions C09_finite_commit_invariance_unconditional.
+Print Assumptions C09_nan_only_by_iteration_cap.
+Print Assumptions C09_linear_hardening_never_nan.
